@@ -69,4 +69,10 @@ CHECKS = [
              "(error page | truncated response)?, error pages are well-formed 4xx/5xx with Connection: close and exact length, application calls "
              "never exceed what an independent RFC 9112 reader accepts, the socket is closed and the same worker serves the next connection.",
      "note": "fake socket (EOF after scripted bytes); faults limited to ECONNRESET/EPIPE/ENOTCONN at recv/send call boundaries"},
+    {"id": "C18", "engine": "W+R",
+     "technique": "property-based testing (Hypothesis) of the exact counting rule on in-process worker objects with a pinned jitter draw; enumerated real-server load cases",
+     "text": "W: max_requests x jitter x pinned jitter draw x 4 worker classes x connection plans: alive must turn false exactly at request "
+             "max_requests+draw, that response complete and closing, never with max_requests=0. R: real masters under sequential/concurrent "
+             "non-keep-alive load: all responses complete, none refused/reset outside the listed known findings, per-pid bound, pids rotate.",
+     "note": "jitter pinned by replacing gunicorn.workers.base.randint in the harness; R part bounded by wall-clock slack (inconclusive, never violation, on budget overrun)"},
 ]
